@@ -155,6 +155,12 @@ func decodeBfs(run *ev.Run, sys string, hist []string, pr pool.Result, st *bfsPo
 		run.Violation("panic/bfs/"+firstLine(pr.Panic), map[string]interface{}{"history": hist, "panic": tailStr(pr.Panic, 6000), "replay": rp})
 		return nil, false
 	}
+	if pr.Err == "worker died" {
+		if sig, ok := processDeath(pr.Dump); ok {
+			run.Violation(sig, map[string]interface{}{"history": hist, "stderr": headStr(pr.Dump, 6000), "replay": rp})
+			return nil, false
+		}
+	}
 	if pr.Err != "" {
 		fmt.Printf("HARNESS ERROR (%s) history [%s]: %s\n%s\n", sys, hs, pr.Err, tailStr(pr.Dump, 2000))
 		st.HarnessErrors++
